@@ -116,6 +116,18 @@ func solve(w *World, o *Obl, tier string, keepQuery bool) *Result {
 	t0 := time.Now()
 	defer func() { r.Seconds = time.Since(t0).Seconds() }()
 	ctx := context.Background()
+	if o.Short {
+		ans, out, _ := runSolver(ctx, "z3-new", 2, q, true)
+		switch ans {
+		case "unsat":
+			r.Status, r.Solver = "discharged", "z3-new"
+		case "sat":
+			r.Status, r.Solver, r.Model, r.Output = "refuted", "z3-new", out, out
+		default:
+			r.Status, r.Output = "unknown", "z3-new: "+ans
+		}
+		return r
+	}
 	if o.Kind == "cover" {
 		// only an unsat answer matters (vacuity); a model is not needed
 		ans, out, _ := runSolver(ctx, "z3-new", 2, q, false)
